@@ -478,6 +478,14 @@ func gen(rng *vh.Rng, n int, emit func(id string, sel int, in []int64, kind stri
 		{Code: 10}, {Code: 9},
 	}
 	emit("snapshot-podgroup-conditions", 1, encCase(pc), "fixed", true, describe(pc))
+	// audit W1: a snapshot node holds the copy of a task whose job (no PodGroup) is not in the snapshot
+	sn := []opT{
+		{Code: 3, Node: cachectl.NodeX{NodeSpec: sched.NodeSpec{ID: 1, Has: true, CPU: 8000, Mem: 1 << 30, Pods: 10}}},
+		{Code: 1, Pod: cachectl.PodSpec{ID: 1, Job: 2, Node: 1, Phase: 2, Role: 1, CPU: 2000, Mem: 1 << 20}},
+		{Code: 13},
+		{Code: 10}, {Code: 9},
+	}
+	emit("snapshot-node-task-of-job-outside-snapshot", 1, encCase(sn), "fixed", true, describe(sn))
 
 	// PriorityClass witnesses: a job without priorityClassName gets the default priority in Snapshot()
 	base := []opT{{Code: 7, A: []int64{1}}, {Code: 5, PG: cachectl.PGSpec{ID: 2, UID: 1, Queue: 1, Min: 1}},
